@@ -203,3 +203,201 @@ func JudgeShared(stmts []*N, workers int, warm bool) *SharedVerdict {
 	v.OK = true
 	return v
 }
+
+// ---- the same through `go`: one script function called by several goroutines of one script ----
+//
+// The program becomes the body of ONE script function work(p, pfail); a script starts it `workers`
+// times with `go`, every call with probe functions of its own (so every call has its own log) and all
+// in one environment. The body binds every name it uses before it reads it, so the calls share
+// nothing but the function. What a call does is what the program does when it is run on its own: the
+// same statements in the same order (a deferred call runs when the body ends, as it does at the end
+// of a program). Observed per call: the probe log, the value handed to fin, or that the call failed.
+
+type goCall struct {
+	mu    sync.Mutex
+	trace []string
+	val   interface{}
+	fin   bool
+	err   interface{}
+	bad   bool
+}
+
+// defineProbes binds p<k> and pf<k>: the probes of NewHost, writing to the log of call k.
+func defineProbes(h *Host, k int, c *goCall) {
+	h.Env.Define(fmt.Sprintf("p%d", k), func(args ...interface{}) interface{} {
+		c.mu.Lock()
+		defer c.mu.Unlock()
+		if len(args) == 0 {
+			c.trace = append(c.trace, "p")
+			return nil
+		}
+		if len(args) > 1 {
+			c.trace = append(c.trace, "p "+RenderGo(args[0])+" "+RenderGo(args[1]))
+			return args[1]
+		}
+		c.trace = append(c.trace, "p "+RenderGo(args[0]))
+		return args[0]
+	})
+	h.Env.Define(fmt.Sprintf("pf%d", k), func(id interface{}) interface{} {
+		c.mu.Lock()
+		c.trace = append(c.trace, "pfail "+RenderGo(id))
+		c.mu.Unlock()
+		if n, ok := id.(int64); ok && n%2 == 1 {
+			panic(fmt.Errorf("pfail"))
+		}
+		panic("pfail")
+	})
+}
+
+// JudgeSharedGo is JudgeShared with the simultaneous runs started by `go` statements of one script.
+func JudgeSharedGo(stmts []*N, workers int, warm bool) *SharedVerdict {
+	body := Print(stmts)
+	def := "work = func(p, pfail) {\n" + body + "}\n"
+	call := func(k int) string {
+		return fmt.Sprintf("try { fin(%d, work(p%d, pf%d)) } catch e { bad(%d, e) }", k, k, k, k)
+	}
+	launch := ""
+	for k := 0; k < workers; k++ {
+		launch += "go (func() { " + call(k) + "; done() })()\n"
+	}
+	v := &SharedVerdict{Src: def + launch}
+	base := Run(stmts, Cfg{}, ModelBudget)
+	v.Out = base
+	if base.Unspecified != "" {
+		v.Excluded = base.Unspecified
+		return v
+	}
+	host := NewHostFor(body)
+	calls := make([]*goCall, workers+2)
+	for k := range calls {
+		calls[k] = &goCall{}
+		defineProbes(host, k, calls[k])
+	}
+	bar := &spinBarrier{n: int32(workers)}
+	var solo int32 = 1
+	var wg sync.WaitGroup
+	host.Env.Define("meet", func() {
+		if atomic.LoadInt32(&solo) == 0 {
+			bar.wait()
+		}
+	})
+	host.Env.Define("fin", func(k int64, val interface{}) {
+		c := calls[k]
+		c.mu.Lock()
+		c.val, c.fin = val, true
+		c.mu.Unlock()
+	})
+	host.Env.Define("bad", func(k int64, e interface{}) {
+		c := calls[k]
+		c.mu.Lock()
+		c.err, c.bad = e, true
+		c.mu.Unlock()
+	})
+	host.Env.Define("done", func() {
+		bar.open() // a call that has ended waits for nobody any more
+		wg.Done()
+	})
+	const patience = 20 * time.Second
+	// exec runs a piece of script text in the one environment; false: it did not do what the harness
+	// wrote it to do (reported as such, never judged as a call of work)
+	exec := func(src, what string) bool {
+		_, err, timedOut := host.ExecTimeout(src, patience)
+		if timedOut {
+			v.Phase, v.Clause, v.Detail = what, "no-termination", "the script was still going after 20 s"
+			return false
+		}
+		if hp, ok := ank.IsHostPanic(err); ok {
+			v.Phase, v.Clause, v.Detail = what, "host-panic", fmt.Sprintf("escaped panic: %v", hp.Value)
+			return false
+		}
+		if err != nil {
+			v.Excluded = "harness problem: the script that " + what + " failed: " + err.Error()
+			return false
+		}
+		return true
+	}
+	judge := func(k int, phase string, w int) bool {
+		c := calls[k]
+		c.mu.Lock()
+		defer c.mu.Unlock()
+		var err error
+		if c.bad {
+			err = fmt.Errorf("%v", c.err)
+		} else if !c.fin {
+			v.Phase, v.Worker, v.Clause = phase, w, "call-never-came-back"
+			v.GotTrace = c.trace
+			v.Detail = fmt.Sprintf("the call of work neither returned a value nor failed (probe log: %v)", c.trace)
+			return false
+		}
+		gotTrace := canonTrace(c.trace)
+		var firstClause, firstDetail, unspecUnder string
+		for i, cfg := range AllCfgs() {
+			out := base
+			if i > 0 {
+				out = Run(stmts, cfg, ModelBudget)
+				if out.Unspecified != "" {
+					unspecUnder = out.Unspecified
+					continue
+				}
+			}
+			clause, detail := compare(out, gotTrace, c.val, err, nil)
+			if clause == "" {
+				return true
+			}
+			if i == 0 {
+				firstClause, firstDetail = clause, detail
+			}
+		}
+		if unspecUnder != "" {
+			v.Excluded = "under an admitted reading of the under-specified choices: " + unspecUnder
+			return false
+		}
+		v.Phase, v.Worker, v.Clause, v.Detail = phase, w, firstClause, firstDetail
+		v.GotTrace = c.trace
+		return false
+	}
+	if !exec(def, "defines work") {
+		return v
+	}
+	if warm {
+		if !exec(call(workers), "first") || !judge(workers, "first", 0) {
+			return v
+		}
+	}
+	atomic.StoreInt32(&solo, 0)
+	wg.Add(workers)
+	// the calls started by go run under the context of the script that started them: it stays open
+	// until they have ended
+	ctx, cancel := context.WithTimeout(context.Background(), patience)
+	defer cancel()
+	if _, err := ank.ExecCtx(ctx, host.Env, launch); err != nil {
+		if hp, ok := ank.IsHostPanic(err); ok {
+			v.Phase, v.Clause, v.Detail = "together", "host-panic", fmt.Sprintf("escaped panic: %v", hp.Value)
+			return v
+		}
+		v.Excluded = "harness problem: the script that starts the calls failed: " + err.Error()
+		return v
+	}
+	joined := make(chan struct{})
+	go func() { wg.Wait(); close(joined) }()
+	select {
+	case <-joined:
+	case <-time.After(patience):
+		v.Phase, v.Clause, v.Detail = "together", "no-termination", "not every call started with go had ended after 20 s"
+		return v
+	}
+	atomic.StoreInt32(&solo, 1)
+	if v.Met = int(atomic.LoadInt32(&bar.gen)); v.Met < 0 {
+		v.Met = 0
+	}
+	for w := 0; w < workers; w++ {
+		if !judge(w, "together", w) {
+			return v
+		}
+	}
+	if !exec(call(workers+1), "afterwards") || !judge(workers+1, "afterwards", 0) {
+		return v
+	}
+	v.OK = true
+	return v
+}
